@@ -130,6 +130,7 @@ type Conn struct {
 	readBuf          []byte
 	readErr          error
 	writeBuf         []byte
+	writeErr         error
 	retryCount       *atomic.Int32
 	readPassthrough  bool
 	writePassthrough bool
@@ -388,6 +389,10 @@ func (c *Conn) Read(b []byte) (int, error) {
 }
 
 func (c *Conn) Write(b []byte) (int, error) {
+	if c.writeErr != nil {
+		// A record was refused: nothing more is taken in.
+		return 0, c.writeErr
+	}
 	if c.writePassthrough && len(c.writeBuf) == 0 {
 		return c.Conn.Write(b)
 	}
@@ -409,13 +414,17 @@ func (c *Conn) Write(b []byte) (int, error) {
 		}
 		length := uint32(c.writeBuf[3])<<8 | uint32(c.writeBuf[4])
 		if length > maxRecordLength {
-			return 0, fmt.Errorf("%w: record length %d > %d", ErrDecodeError, length, maxRecordLength)
+			c.writeErr = fmt.Errorf("%w: record length %d > %d", ErrDecodeError, length, maxRecordLength)
+			c.writeBuf = nil
+			return 0, c.writeErr
 		}
 		sz := int(length) + 5
 		if sz > len(c.writeBuf) {
 			break
 		}
 		if err := c.inspectWrite(c.writeBuf[:sz]); err != nil {
+			c.writeErr = err
+			c.writeBuf = nil
 			return 0, err
 		}
 		n, err := c.Conn.Write(c.writeBuf[:sz])
